@@ -84,16 +84,6 @@ for B in ('C', 'R'):
 
 SMALL = 'Or(n == 1, n == 2, n == 4, n == 8)'
 NC = 'assumed: the constructor either throws or yields a plan of the requested size (its tables are built from other translation units)'
-fn('dsplib::CztPlan::CztPlan', F, key='CztPlan::CztPlan', serves=['C01'], trusted=True, assigns=['this'], may_throw=True,
-   notes='assumed: constructing a chirp-z plan (lib/fft/czt.cpp, another translation unit) touches nothing but the new object')
-from contracts.mathfun import LIBM as _LIBM
-PENV = dict(ENV)
-PENV.update(_LIBM)
-fn('dsplib::PrimesFftC::PrimesFftC', F, key='PrimesFftC::PrimesFftC', serves=['C10', 'C01', 'C05'], assigns=['this'], may_throw=True, extra_env=PENV,
-   requires=[('size', 'And(n >= -1073741824, n <= 1073741824)')],
-   ensures=[('size', 'n_ == n'), ('prime_at_least_3', 'n_ >= 3'),
-            ('twiddle_table', 'Implies(n <= 41, And(w_.len == n, forall(lambda k: Implies(And(0 <= k, k < n), '
-                              'And(w_[k].re == COS(-2 * PI * ToReal(k) / ToReal(n)), w_[k].im == SIN(-2 * PI * ToReal(k) / ToReal(n)))))))')])
 fn('dsplib::FactorFFTPlan::FactorFFTPlan', F, key='FactorFFTPlan::FactorFFTPlan', serves=['C10', 'C01'], trusted=True, assigns=['this'], may_throw=True,
    ensures=[('size', '_n == n')], notes=NC)
 
